@@ -171,3 +171,296 @@ def omic_expand(pbc):
     if pbc is False:
         return [False] * 3
     return list(pbc)
+
+
+# ======================================================================================= C16
+def _complete(cell):
+    cell = np.array(cell, float)
+    zero = [i for i in range(3) if not cell[i].any()]
+    if zero:
+        from ase.geometry import complete_cell
+        cell = np.array(complete_cell(cell), float)
+    return cell, zero
+
+
+def dist_to_cell_region(points, cell, zero_axes):
+    """Exact distance from each point to the region {s.cell : s in [0,1] on existing axes, unconstrained along
+    missing (zero) axes}.  Box-constrained least squares by active-set enumeration (27 sets at most)."""
+    points = np.atleast_2d(np.asarray(points, float))
+    ccell, _ = _complete(cell)
+    ex = [i for i in range(3) if i not in zero_axes]
+    # remove the components along the missing directions (unconstrained there)
+    if zero_axes:
+        # orthonormal basis of span of existing vectors
+        Q, _ = np.linalg.qr(ccell[ex].T)           # 3 x k
+        pts = points @ Q                            # coordinates in span
+        A = ccell[ex] @ Q                           # k x k
+    else:
+        pts = points
+        A = ccell
+    k = len(ex)
+    best = np.full(len(pts), np.inf)
+    for state in itertools.product((0, 1, 2), repeat=k):      # 0 -> s=0, 1 -> s=1, 2 -> free
+        fixed = np.array([1.0 if s == 1 else 0.0 for s in state])
+        free = [i for i, s in enumerate(state) if s == 2]
+        base = fixed @ A
+        r = pts - base
+        if free:
+            Af = A[free]                                       # f x k
+            coef = r @ np.linalg.pinv(Af)                      # m x f
+            ok = np.all((coef >= -1e-12) & (coef <= 1 + 1e-12), axis=1)
+            resid = r - coef @ Af
+            d = np.linalg.norm(resid, axis=1)
+            d[~ok] = np.inf
+        else:
+            d = np.linalg.norm(r, axis=1)
+        best = np.minimum(best, d)
+    return best
+
+
+def check_extended_system(rec, name, lane, pos, numbers, cell, pbc, cutoff, es, context="direct"):
+    rec.call(name)
+    pos = np.asarray(pos, float)
+    n = len(pos)
+    cell0 = np.array(cell, float)
+    pbc = np.asarray(pbc, bool)
+    zero = [i for i in range(3) if not cell0[i].any()]
+    if n == 0 or any(pbc[i] for i in zero) or not np.isfinite(cutoff) or cutoff < 0:
+        rec.ood(name); return
+    ccell, _ = _complete(cell0)
+    if abs(np.linalg.det(ccell)) < 1e-12 or not inside_cell(pos, cell0):
+        rec.ood(name); return
+
+    def viol(kind, what, **kw):
+        rec.violation(name, "C16|extend|%s" % kind, what,
+                      structure_witness(pos, cell0, pbc, cutoff=repr(cutoff), lane=lane, context=context, **kw))
+
+    P = np.asarray(es.positions, float); I = np.asarray(es.indices); F = np.asarray(es.factors, float)
+    Z = np.asarray(es.atomic_numbers)
+    m = len(I)
+    if not (P.shape == (m, 3) and F.shape == (m, 3) and Z.shape == (m,)):
+        viol("shape", "inconsistent array shapes in the extended system"); rec.judged(name); return
+    if m < n or not np.array_equal(I[:n], np.arange(n)) or np.any(F[:n] != 0) or not np.array_equal(P[:n], pos):
+        viol("originals-first", "the first n entries are not the original atoms with zero offsets")
+    if np.any(I < 0) or np.any(I >= n):
+        viol("index-range", "original index out of range"); rec.judged(name); return
+    if not np.array_equal(F, np.round(F)):
+        viol("non-integer-offset", "non-integer cell offsets")
+    if np.any(F[:, ~pbc] != 0):
+        viol("offset-on-nonperiodic", "non-zero offset along a non-periodic axis")
+    t = tol(pos, cell0, P)
+    if np.abs(P - (pos[I] + F @ cell0)).max() > 10 * t:
+        viol("position", "position != original + offset.cell")
+    if numbers is not None and not np.array_equal(Z, np.asarray(numbers)[I]):
+        viol("species", "atomic numbers of the images do not follow the originals")
+    keys = set()
+    dup = False
+    for k in range(m):
+        key = (int(I[k]), int(F[k, 0]), int(F[k, 1]), int(F[k, 2]))
+        if key in keys:
+            dup = True
+        keys.add(key)
+    if dup:
+        viol("duplicate", "an (index, offset) pair occurs more than once")
+    # completeness
+    h = omic.heights(ccell, [i not in zero for i in range(3)])
+    K = [int(np.ceil(cutoff / h[i])) + 1 if (pbc[i] and i not in zero) else 0 for i in range(3)]
+    if (2 * K[0] + 1) * (2 * K[1] + 1) * (2 * K[2] + 1) * n > 400000:
+        rec.ood(name); return
+    offs = np.array(list(itertools.product(*[range(-k, k + 1) for k in K])), float)
+    imgs = (pos[:, None, :] + (offs @ cell0)[None, :, :]).reshape(-1, 3)
+    d = dist_to_cell_region(imgs, cell0, zero).reshape(n, len(offs))
+    need = d <= cutoff - BAND - t
+    missing = []
+    for a, o in zip(*np.nonzero(need)):
+        key = (int(a), int(offs[o, 0]), int(offs[o, 1]), int(offs[o, 2]))
+        if key not in keys:
+            missing.append((key, float(d[a, o])))
+    if missing:
+        viol("incomplete", "%d image(s) within the extension distance of the cell are missing, e.g. atom %d offset %s at distance %r"
+             % (len(missing), missing[0][0][0], missing[0][0][1:], missing[0][1]), missing=[list(mm[0]) for mm in missing[:5]])
+    rec.judged(name)
+    return int(need.sum())
+
+
+def periodic_inside(points, cell, pbc, eps=1e-12):
+    """scaled coordinates along *periodic* axes within [0,1]"""
+    ccell, zero = _complete(cell)
+    s = np.linalg.solve(ccell.T, np.atleast_2d(points).T).T
+    ok = np.ones(len(s), bool)
+    for i in range(3):
+        if pbc[i]:
+            ok &= (s[:, i] >= -eps) & (s[:, i] <= 1 + eps)
+    return ok
+
+
+def check_neighbour_query(rec, name, lane, pos, cell, pbc, extension, cutoff, es, q, res, context="direct"):
+    """es: the extended system the cell list was built on (recomputed by the caller with the same arguments)."""
+    rec.call(name)
+    pos = np.asarray(pos, float)
+    cell0 = np.array(cell, float)
+    pbc = np.asarray(pbc, bool)
+    q = np.asarray(q, float)
+    zero = [i for i in range(3) if not cell0[i].any()]
+    if any(pbc[i] for i in zero) or not inside_cell(pos, cell0) or not periodic_inside(q, cell0, pbc)[0]:
+        rec.ood(name); return
+
+    def viol(kind, what, **kw):
+        rec.violation(name, "C16|query|%s" % kind, what,
+                      structure_witness(pos, cell0, pbc, extension=repr(extension), cutoff=repr(cutoff), query=q.tolist(),
+                                        query_hex=fhex(q), lane=lane, context=context, **kw))
+    P = np.asarray(es.positions, float); I = np.asarray(es.indices); F = np.asarray(es.factors, float)
+    t = tol(pos, cell0, q)
+    d = np.linalg.norm(q[None, :] - P, axis=1)
+    must = set(np.nonzero(d <= cutoff - BAND - t)[0].tolist())
+    may = set(np.nonzero(d <= cutoff + BAND + t)[0].tolist())
+    got = list(res.indices)
+    gs = set(got)
+    if len(gs) != len(got):
+        viol("duplicate", "an image is returned twice")
+    if not must <= gs:
+        k = sorted(must - gs)[0]
+        viol("missed", "image %d (atom %d, offset %s) at distance %r <= cutoff %r not returned" % (k, I[k], F[k].tolist(), d[k], cutoff))
+    if not gs <= may:
+        k = sorted(gs - may)[0]
+        viol("beyond-cutoff", "returned image %d lies at distance %r > cutoff %r" % (k, d[k] if 0 <= k < len(d) else None, cutoff))
+    for pos_k, k in enumerate(got):
+        if not (0 <= k < len(P)):
+            viol("index-range", "returned extended index out of range"); break
+        if res.indices_original[pos_k] != I[k] or list(res.factors[pos_k]) != F[k].tolist():
+            viol("bookkeeping", "indices_original / factors do not belong to the returned image"); break
+        disp = np.asarray(res.displacements[pos_k], float)
+        if np.abs(disp - (q - P[k])).max() > t or abs(res.distances[pos_k] - d[k]) > t \
+                or abs(res.distances_squared[pos_k] - d[k] ** 2) > t * max(1.0, d[k]):
+            viol("inexact", "distance / displacement of a returned image is wrong"); break
+    # completeness w.r.t. *all* periodic images (needs extension >= cutoff)
+    if extension >= cutoff and len(pos):
+        diffs = q[None, :] - pos
+        try:
+            # all images within cutoff, not only the nearest: enumerate offsets
+            h = omic.heights(_complete(cell0)[0], [i not in zero for i in range(3)])
+            K = [int(np.ceil(cutoff / h[i])) + 1 if pbc[i] else 0 for i in range(3)]
+            if (2 * K[0] + 1) * (2 * K[1] + 1) * (2 * K[2] + 1) * len(pos) <= 400000:
+                offs = np.array(list(itertools.product(*[range(-k, k + 1) for k in K])), float)
+                imgs = pos[:, None, :] + (offs @ cell0)[None, :, :]
+                dd = np.linalg.norm(q[None, None, :] - imgs, axis=2)
+                exp = set()
+                for a, o in zip(*np.nonzero(dd <= cutoff - BAND - t)):
+                    exp.add((int(a), int(offs[o, 0]), int(offs[o, 1]), int(offs[o, 2])))
+                have = set((int(res.indices_original[k]), int(res.factors[k][0]), int(res.factors[k][1]), int(res.factors[k][2]))
+                           for k in range(len(got)))
+                if not exp <= have:
+                    mm = sorted(exp - have)[0]
+                    viol("missed-image", "periodic image (atom %d, offset %s) within the cutoff of the query point is not returned "
+                         "(extension %r >= cutoff %r)" % (mm[0], mm[1:], extension, cutoff))
+                rec.judged(name + ":all-images")
+        except OverflowError:
+            pass
+    rec.judged(name)
+
+
+def nearest_images(probes, pos, cell, pbc):
+    """For each probe: (distances to the nearest image of every atom (m,n), offsets (m,n,3))."""
+    probes = np.atleast_2d(probes)
+    m, n = len(probes), len(pos)
+    diffs = (probes[:, None, :] - pos[None, :, :]).reshape(-1, 3)
+    _, d, nmin = omic.mic_vectors(diffs, cell, pbc)
+    return d.reshape(m, n), nmin.reshape(m, n, 3)
+
+
+def check_matches(rec, name, lane, system_pos, system_num, cell, pbc, extension, cl_cutoff, probes, numbers, tolerance,
+                  result, simple, rng, max_probes=60, context="direct"):
+    rec.call(name)
+    pos = np.asarray(system_pos, float)
+    cell0 = np.array(cell, float)
+    pbc = np.asarray(pbc, bool)
+    probes = np.atleast_2d(np.asarray(probes, float))
+    numbers = np.asarray(numbers)
+    zero = [i for i in range(3) if not cell0[i].any()]
+    if zero or not inside_cell(pos, cell0) or len(pos) == 0 or len(probes) == 0:
+        rec.ood(name); return
+    if tolerance > min(extension, cl_cutoff) + BAND:
+        rec.ood(name); return
+    if simple:
+        from ase.geometry import wrap_positions
+        matches, displacements = result
+        eff = wrap_positions(probes, cell0, pbc) if abs(np.linalg.det(_complete(cell0)[0])) > 1e-12 else probes
+        ok = np.ones(len(probes), bool)
+    else:
+        matches, substitutions, vacancies, copy_indices = result
+        eff = probes
+        ok = periodic_inside(probes, cell0, pbc)
+    idx = np.nonzero(ok)[0]
+    rec.ood(name, int((~ok).sum()))
+    if len(idx) == 0:
+        return
+    if len(idx) > max_probes:
+        idx = np.sort(rng.choice(idx, size=max_probes, replace=False))
+    try:
+        D, N = nearest_images(eff[idx], pos, cell0, pbc)
+    except OverflowError:
+        rec.ood(name); return
+    t = tol(pos, cell0, probes)
+
+    def viol(kind, what, k, **kw):
+        rec.violation(name, "C16|match|%s" % kind, what,
+                      structure_witness(pos, cell0, pbc, numbers=np.asarray(system_num).tolist(), probe=eff[k].tolist(), probe_hex=fhex(eff[k]),
+                                        probe_number=int(numbers[k]), tolerance=repr(tolerance), extension=repr(extension),
+                                        cl_cutoff=repr(cl_cutoff), simple=bool(simple), lane=lane, context=context, **kw))
+    n_vac_expected = 0
+    for row, k in enumerate(idx):
+        d = D[row]
+        order = np.argsort(d)
+        j = int(order[0])
+        dmin = float(d[j])
+        tie = len(d) > 1 and (d[order[1]] - dmin) <= 1e-9 + t
+        m = matches[k]
+        sub = None if simple else substitutions[k]
+        if dmin <= tolerance - BAND - t:
+            same = int(system_num[j]) == int(numbers[k])
+            if tie:
+                rec.note("match_tie_skipped"); continue
+            if same:
+                if m is None or int(m) != j:
+                    viol("wrong-match", "nearest image within tolerance is atom %d (d=%r) but match=%r" % (j, dmin, m), k)
+                elif sub is not None:
+                    viol("match-and-substitution", "both a match and a substitution reported", k)
+            else:
+                if m is not None:
+                    viol("species-ignored", "atom %d of species %d matched for a probe of species %d" % (j, system_num[j], numbers[k]), k)
+                elif not simple and (sub is None or int(sub.index) != j or int(sub.substitutional_element) != int(system_num[j])
+                                      or int(sub.original_element) != int(numbers[k])):
+                    viol("wrong-substitution", "nearest image within tolerance is atom %d of another species, substitution=%r"
+                         % (j, None if sub is None else (sub.index, sub.original_element, sub.substitutional_element)), k)
+            if not simple and (m is not None or sub is not None):
+                got = np.asarray(copy_indices[k], float)
+                found = j if m is not None else int(sub.index)
+                dgot = np.linalg.norm(eff[k] - (pos[found] + got @ cell0)) if np.all(np.isfinite(got)) else np.inf
+                if not np.array_equal(got, np.round(got)) or np.any(got[~pbc] != 0) or dgot > dmin + 10 * t:
+                    # the offset must be that of the (nearest) image that was found
+                    viol("wrong-offset", "reported cell offset %s, nearest image of atom %d is at offset %s" % (got.tolist(), j, N[row, j].tolist()), k)
+            if simple and m is not None and displacements[k] is not None:
+                img = pos[j] + N[row, j] @ cell0
+                if np.abs(np.asarray(displacements[k], float) - (eff[k] - img)).max() > 10 * t:
+                    viol("wrong-displacement", "displacement to the matched image is wrong", k)
+        elif dmin > tolerance + BAND + t:
+            if m is not None or sub is not None:
+                viol("match-beyond-tolerance", "nothing lies within the tolerance (nearest %r > %r) but match=%r substitution=%r"
+                     % (dmin, tolerance, m, None if sub is None else sub.index), k)
+            if not simple:
+                n_vac_expected += 1
+                s = np.linalg.solve(_complete(cell0)[0].T, eff[k])
+                exp = np.floor(s)
+                got = np.asarray(copy_indices[k], float)
+                near_int = np.abs(s - np.round(s)) < 1e-9
+                if not np.array_equal(got[~near_int], exp[~near_int]) and not zero:
+                    viol("vacancy-offset", "vacancy cell offset %s, expected floor(scaled)=%s" % (got.tolist(), exp.tolist()), k)
+        rec.judged(name)
+    if not simple:
+        # every judged vacancy must be listed with its position and species
+        vac_pos = np.array([v.position for v in vacancies]) if len(vacancies) else np.zeros((0, 3))
+        for row, k in enumerate(idx):
+            if D[row].min() > tolerance + BAND + t:
+                if not len(vac_pos) or np.abs(vac_pos - eff[k]).sum(axis=1).min() > t:
+                    viol("vacancy-missing", "probe without any image within tolerance is not reported as a vacancy", k)
+                    break
